@@ -38,6 +38,7 @@ class Recorder:
         self.delivered = {}    # op id -> calls delivered while it ran
         self.smaps = {}        # id(servermap) -> op id of the smap op
         self.free_smaps = []   # servermap objects not yet used by an upload
+        self.cancels = []      # [steps left, Deferred] of requests whose requester goes away
         self.childid = {}      # cap string of a child -> abstract id
         self.nsub = 0
         self.decoder = None    # DirectoryNode used to unpack directory contents
@@ -195,6 +196,8 @@ def gen_calls(rng, kind, n):
         # most requests arrive while earlier operations are still in progress
         at += rng.choice([0, 0, 0, 1, 2, 3, 5, 8, 13, 30])
         call["at"] = at
+        if rng.random() < 0.12:
+            call["cancel"] = rng.choice([1, 2, 4, 8, 15])      # steps after the request until its Deferred is cancelled
         calls.append(call)
     return calls
 
@@ -203,6 +206,7 @@ def issue(g, call, getnode):
     """Invoke one API call on a node freshly obtained from the cap string."""
     node = getnode()
     api, tok = call["api"], call["tok"]
+    ops_before = REC.nops
     if api == "read":
         d = node.download_best_version()
     elif api == "over":
@@ -247,6 +251,11 @@ def issue(g, call, getnode):
     else:
         raise ValueError(api)
     d.addErrback(lambda f: None)
+    if call.get("cancel"):
+        # the requester goes away (a web client that drops its connection cancels the Deferred it was given): that must not
+        # end, shorten or overlap the operation - the node keeps working through its queue in order
+        if api != "mkdir":          # (its operation on the watched node is requested later, after the child was created)
+            REC.cancels.append([call["cancel"], d, list(range(ops_before + 1, REC.nops + 1))])
     return d
 
 
@@ -295,6 +304,13 @@ def scenario(seed, idx, nmax, pfault, workroot):
                 issue(g, todo.pop(0), getnode)
             progressed = g.step()
             step += 1
+            for c in list(REC.cancels):
+                c[0] -= 1
+                if c[0] <= 0:
+                    REC.cancels.remove(c)
+                    if not c[1].called:
+                        REC.events.append({"ev": "Cancel", "ops": c[2]})
+                        c[1].cancel()
             if not progressed:
                 if todo:
                     todo[0]["at"] = step
